@@ -51,3 +51,11 @@ Print Assumptions C18_bytes_lossless_partial.
 Theorem C18_trailing_nul_refuted : exists bs, store DBytes (PBytes bs) <> Ok (PBytes bs).
 Proof. exact trailing_nul_refuted. Qed.
 Print Assumptions C18_trailing_nul_refuted.
+
+(* a float32 column holds every value decoded from an IEEE binary32 field unchanged: rounding such a value to binary32 and
+   widening it again (numpy's float32 storage, [round32]) is the identity *)
+From SPP Require Import Proofs.Float32P.
+Theorem C18_float32_lossless : forall bits,
+  store DF32 (PFloat (to_bits64 (dec_ieee 8 23 bits))) = Ok (PFloat (to_bits64 (dec_ieee 8 23 bits))).
+Proof. exact float32_lossless. Qed.
+Print Assumptions C18_float32_lossless.
